@@ -102,6 +102,17 @@ theorem two_signing_runs (C : CryptoFns) (a b ka kb : PStr) (hab : a ≠ b) (fs0
   have _ := hab
   exact ⟨e0, e1⟩
 
+/-- no single step of a job changes any file but its own (not even transiently) -/
+theorem stepJob_frame (jb : FileJob) (fs : FS) (st : FLocal) (x : PStr) (hx : x ≠ jb.name) : (stepJob jb fs st).1 x = fs x := by
+  unfold stepJob
+  split
+  · rfl
+  · rfl
+  · split
+    · exact FS.get_put_other _ _ _ _ hx
+    · rfl
+  · rfl
+
 /-- a job run alone is read, compute, write: its file ends as `jobResult` says -/
 theorem job_alone (jb : FileJob) (fs0 : FS) (ts : Nat → FLocal) (h0 : (ts 0).pc = 0) :
     (runJobs (fun _ => jb) fs0 ts [0, 0, 0]).1 jb.name = jobResult jb fs0 := by
